@@ -196,7 +196,11 @@ func withTimeout(f probeFn) string {
 	}
 }
 
-func runAttempt(b Builder, seq []*Call, exps []Expect) []Obs {
+func runAttempt(b Builder, seq []*Call, exps []Expect) []Obs { return runAttemptX(b, seq, exps, false) }
+
+// runAttemptX: with probeLast the runnable returned by the last call is probed even though the model
+// rejected an earlier Compile (used only when the model finds the remaining construction well-formed).
+func runAttemptX(b Builder, seq []*Call, exps []Expect, probeLast bool) []Obs {
 	inst := b.New()
 	var first probeFn
 	baseUnstable := false
@@ -218,6 +222,9 @@ func runAttempt(b Builder, seq []*Call, exps []Expect) []Obs {
 		// a Compile that the model rejects but the implementation accepts is reported as such; its runnable is not
 		// probed (an ill-formed graph that got through may well not terminate)
 		diverged := i < len(exps) && exps[i].From != stCompiled && exps[i].V == vReject
+		if probeLast && i == len(seq)-1 {
+			diverged = false
+		}
 		if os.Getenv("C20_PROBE_ALL") != "" {
 			diverged = false // development aid: look at what an ill-formed graph that got through computes
 		}
@@ -631,6 +638,11 @@ func (e *engine) transition(b Builder, src Model, path []*Call, c *Call, exp Exp
 		}
 	}
 	f := judge(e, b, src, seq, exp, traces)
+	if f != nil && strings.HasPrefix(f.sig, "compile-error-not-sticky") && c.IsCompile() {
+		if g := e.afterRejectedCompile(b, seq, exps, traces[0]); g != nil {
+			f = g
+		}
+	}
 	nt := c.IsCompile() || src.Status() != stLive || (exp.V == vReject)
 	if !nt {
 		nt = nontrivial(b, seq)
@@ -655,6 +667,41 @@ func (e *engine) transition(b Builder, src Model, path []*Call, c *Call, exp Exp
 	return f
 }
 
+// afterRejectedCompile refines a "first error does not stick" finding whose last call is an accepted Compile:
+// the construction without its rejected Compile calls is built on a fresh instance; if the model finds it
+// well-formed, both runnables must answer the probe alike. A difference means that the rejected Compile left
+// the builder in a state in which later calls are accepted but not honoured.
+func (e *engine) afterRejectedCompile(b Builder, seq []*Call, exps []Expect, tr []Obs) *finding {
+	var ref []*Call
+	for i, c := range seq {
+		if c.IsCompile() && i < len(seq)-1 {
+			if i < len(tr) && tr[i].HasErr && !tr[i].Nil {
+				continue // rejected Compile: dropped from the reference construction
+			}
+			return nil // an earlier Compile succeeded: not this class
+		}
+		ref = append(ref, c)
+	}
+	rexp := expectations(b, ref)
+	if len(rexp) != len(ref) || rexp[len(ref)-1].From != stLive || rexp[len(ref)-1].V != vAccept {
+		return nil
+	}
+	want := runAttempt(b, ref, rexp)
+	got := runAttemptX(b, seq, exps, true)
+	e.c.Res.Evaluations += 2
+	if len(want) != len(ref) || len(got) != len(seq) {
+		return nil
+	}
+	w, g := want[len(ref)-1], got[len(seq)-1]
+	if w.Base == "" || g.Base == "" || w.Unstable || g.Unstable || w.Base == g.Base {
+		return nil
+	}
+	return &finding{
+		sig: "rejected-compile-leaves-builder-inconsistent:" + sigName(b),
+		msg: fmt.Sprintf("after a rejected Compile later calls are accepted but not honoured: the final runnable answers %q, the same calls without the rejected Compile give %q | %s", g.Base, w.Base, b.Name()+": "+render(seq, tr)),
+	}
+}
+
 func (e *engine) report(b Builder, seq []*Call, f *finding) {
 	e.c.Count("violating_transitions["+f.sig+"]", 1)
 	e.sigSeen[f.sig]++
@@ -670,7 +717,7 @@ func (e *engine) report(b Builder, seq []*Call, f *finding) {
 
 func (e *engine) attemptsFor(c *Call) int {
 	if c.IsCompile() {
-		return e.attempts * 2 // compile iterates several Go maps: look harder for run-to-run differences
+		return e.attempts + 1 // compile iterates several Go maps: look a little harder for run-to-run differences
 	}
 	return e.attempts
 }
@@ -752,8 +799,8 @@ func (e *engine) bfs(b Builder) {
 
 // ---------------------------------------------------------------------------------------------------
 
-func builders() []Builder {
-	return []Builder{newGraphBuilder(false), newWorkflowBuilder(), newChainBuilder(), newGraphBuilder(true)}
+func builders(quick bool) []Builder {
+	return []Builder{newGraphBuilder(false), newWorkflowBuilder(), newChainBuilder(quick), newGraphBuilder(true)}
 }
 
 func replay(c *harness.Ctx, e *engine, v *harness.Violation) {
@@ -764,7 +811,7 @@ func replay(c *harness.Ctx, e *engine, v *harness.Violation) {
 		os.Exit(2)
 	}
 	var b Builder
-	for _, x := range builders() {
+	for _, x := range builders(c.Quick()) {
 		if x.Name() == cs.B {
 			b = x
 		}
@@ -860,7 +907,7 @@ func main() {
 	if v := c.LoadReplay(); v != nil {
 		replay(c, e, v)
 	}
-	for _, b := range builders() {
+	for _, b := range builders(c.Quick()) {
 		if c.Quick() && b.Name() == "Gs" {
 			continue // the stateful-graph flavour adds no violation kind; thorough tier only
 		}
